@@ -12,10 +12,15 @@ Open Scope N_scope.
 Lemma c20_begin_in_handle_fact : c20_begin_in_handle = true. Proof. reflexivity. Qed.
 Lemma c20_wait_in_wrapper_fact : c20_wait_in_wrapper = true. Proof. reflexivity. Qed.
 Lemma c20_register_in_handle_fact : c20_register_in_handle = true. Proof. reflexivity. Qed.
+Lemma c20_begin_invoked_in_handle_fact : c20_begin_invoked_in_handle = true. Proof. reflexivity. Qed.
+Lemma c20_wrapper_two_lookups_fact : length c20_wrapper_getpeer_args = 2%nat. Proof. reflexivity. Qed.
+Lemma handle_defers_begin_fact : handle_defers_begin = true. Proof. vm_compute. reflexivity. Qed.
+Lemma connect_defers_begin_fact : connect_defers_begin = true. Proof. vm_compute. reflexivity. Qed.
 Lemma deployed_current : deployed = Current.
 Proof.
   unfold deployed.
-  rewrite c20_begin_in_handle_fact, c20_wait_in_wrapper_fact, c20_register_in_handle_fact. reflexivity.
+  rewrite c20_begin_in_handle_fact, c20_begin_invoked_in_handle_fact, c20_wait_in_wrapper_fact,
+    c20_register_in_handle_fact, c20_wrapper_two_lookups_fact, handle_defers_begin_fact. reflexivity.
 Qed.
 
 (* ---- small facts ------------------------------------------------------------------------ *)
@@ -929,7 +934,12 @@ Proof. repeat split; vm_compute; reflexivity. Qed.
 
 (* ---- mutual dial --------------------------------------------------------------------------------- *)
 Lemma c20_begin_in_connect_fact : c20_begin_in_connect = true. Proof. reflexivity. Qed.
-Lemma ob_deployed_true : ob_deployed = true. Proof. exact c20_begin_in_connect_fact. Qed.
+Lemma c20_begin_invoked_in_connect_fact : c20_begin_invoked_in_connect = true. Proof. reflexivity. Qed.
+Lemma ob_deployed_true : ob_deployed = true.
+Proof.
+  unfold ob_deployed.
+  rewrite c20_begin_in_connect_fact, c20_begin_invoked_in_connect_fact, connect_defers_begin_fact. reflexivity.
+Qed.
 
 Ltac msimp :=
   cbn [base b_begun b_reg a_ret bw set_base set_b_begun set_b_reg set_a_ret set_bw] in *.
